@@ -126,11 +126,16 @@ func parseBitfieldOffset(spec string, width int) (offset int, valid bool) {
 		offset = int(n) * width
 	} else {
 		n, err := strconv.ParseInt(spec, 10, 32)
-		if err != nil {
+		if err != nil || n < 0 {
 			valid = false
 			return
 		}
 		offset = int(n)
+	}
+	// as Redis: the addressed byte must lie below the 512MB string limit
+	if offset>>3 >= 512*1024*1024 {
+		valid = false
+		return
 	}
 	valid = true
 	return
